@@ -3,6 +3,7 @@ package main
 import (
 	"fmt"
 	"math/big"
+	"strings"
 
 	"github.com/tjfoc/gmsm/sm2"
 	"github.com/tjfoc/gmsm/sm3"
@@ -92,11 +93,71 @@ func (r *rng) msg() []byte {
 	return r.bytes(r.intn(200))
 }
 
+// genSm2obj: one key object used for a whole sequence of sign / verify / encrypt / decrypt operations (state that
+// one operation leaves in the object or in the package must not show in the next one)
+func genSm2obj(r *rng, tier string, emit func(string)) {
+	nobj := 8
+	if tier == "thorough" {
+		nobj = 100
+	}
+	for i := 0; i < nobj; i++ {
+		k := r.sm2key()
+		priv := privFromD(k.d)
+		var ops []string
+		var sigs [][3]string // uid, msg, "r:s"
+		var cts [][2]string  // mode, ct
+		for j := 0; j < 4+r.intn(5); j++ {
+			switch r.intn(5) {
+			case 0, 1:
+				uid, msg, rnd := r.uid(), r.msg(), r.bytes(120)
+				ops = append(ops, fmt.Sprintf("s:%s:%s:%s", uid, hx(msg), hx(rnd)))
+				var ub []byte
+				if uid != "-" {
+					ub, _ = unhx(uid)
+				}
+				if len(ub) < 8192 {
+					if rr, ss, err := sm2.Sm2Sign(priv, msg, ub, &fixedRand{append([]byte{}, rnd...)}); err == nil {
+						sigs = append(sigs, [3]string{uid, hx(msg), bhex(rr) + ":" + bhex(ss)})
+					}
+				}
+			case 2:
+				if len(sigs) > 0 {
+					sg := sigs[r.intn(len(sigs))]
+					ops = append(ops, fmt.Sprintf("v:%s:%s:%s", sg[0], sg[1], sg[2]))
+				}
+			case 3:
+				mode := []string{"c1c3c2", "c1c2c3", "asn1"}[r.intn(3)]
+				msg, rnd := r.bytes(1+r.intn(60)), r.bytes(120)
+				ops = append(ops, fmt.Sprintf("e:%s:%s:%s", mode, hx(msg), hx(rnd)))
+				var ct []byte
+				var err error
+				if mode == "asn1" {
+					ct, err = sm2.EncryptAsn1(&priv.PublicKey, msg, &fixedRand{append([]byte{}, rnd...)})
+				} else {
+					ct, err = sm2.Encrypt(&priv.PublicKey, msg, &fixedRand{append([]byte{}, rnd...)}, modeOf(mode))
+				}
+				if err == nil {
+					cts = append(cts, [2]string{mode, hx(ct)})
+				}
+			case 4:
+				if len(cts) > 0 {
+					c := cts[r.intn(len(cts))]
+					ops = append(ops, fmt.Sprintf("d:%s:%s", c[0], c[1]))
+				}
+			}
+		}
+		if len(ops) > 0 {
+			emit(fmt.Sprintf("sm2obj %s %s", bhex(k.d), strings.Join(ops, " ")))
+		}
+	}
+}
+
 func genC01(r *rng, tier string, emit func(string)) {
 	n := 50
 	if tier == "thorough" {
 		n = 800
 	}
+	genSm2obj(r, tier, emit)
 	// digest-level verification with r + s = n: then [t]P is the point at infinity and the public key drops out of
 	// the equation, so for e = r - x([s]G) the tuple "verifies" under EVERY key unless r + s = 0 mod n is refused
 	{
@@ -253,6 +314,7 @@ var c02RareNonces = [][5]string{
 }
 
 func genC02(r *rng, tier string, emit func(string)) {
+	genSm2obj(r, tier, emit)
 	for _, row := range c02RareNonces {
 		d, _ := new(big.Int).SetString(row[1], 16)
 		x, _ := new(big.Int).SetString(row[2], 16)
